@@ -139,6 +139,21 @@ CHECKS.update({
     ),
 })
 
+CHECKS.update({
+    "C10": (
+        "reference model of the documented label cascades and conversion rules (same single float operation, exact comparison) applied to every observed call of the crowsetta converters: full factorial of label options, imports with seconds / samples and time expansion, exports of all geometry types with cast / raise / ignore flags, element-wise round trips",
+        "Every conversion observed reproduces the times, frequencies, labels, order and error policy the documentation states; export after import is exact for recordings without time expansion and value-only labels.",
+        "crowsetta's own refusals (onset >= offset, low >= high) are dependency preconditions; three documented-ambiguous option combinations are not judged.",
+        "DESIGN.md §4 C10",
+    ),
+    "C15": (
+        "WAV files written by the harness with known integer samples; load_clip / load_recording results compared frame by frame with Fraction-evaluated offsets and counts; icontract postconditions on resample and compute_spectrogram for the axis contract (strictly increasing, source start, every coordinate within one advertised step)",
+        "Every array produced in the run carries exactly the file's frames (zero-filled past EOF) at the stated times, and its axes agree with the advertised step.",
+        "PCM_16 files; near-integer products on decimal sample rates are don't-care (dyadic rates decide boundaries exactly); time expansion in {1, 10, 0.5}.",
+        "DESIGN.md §4 C15",
+    ),
+})
+
 NOT_YET = {}
 
 
